@@ -12,6 +12,8 @@
 //!   T4  draws in shuffled orders through one instance and one dirty scratch buffer vs one fresh
 //!       instance per draw;
 //!   T5  16 threads drawing through one shared instance / one shared OutlineGlyphCollection;
+//!   T6  cold start: 16 threads released from a Barrier against a brand-new instance (or clones of it), several
+//!       rounds x all fonts x {Auto, AutoFallback} + the reuse pool, vs a single-threaded reference;
 //!   WF  every successful stream is (MoveTo (LineTo|QuadTo|CurveTo)* Close)* with finite coordinates.
 //! Correspondence shards for coq/C12/Model.v `check_case`:
 //!   KTypes  size_of/align_of of the element types vs the translator's table (Gen.type_table);
@@ -264,6 +266,8 @@ fn fonts(rng: &mut Rng, thorough: bool) -> Vec<FontInfo> {
         ("colrv0v1_variable", d::COLRV0V1_VARIABLE),
         ("notoserifhebrew_autohint", d::NOTOSERIFHEBREW_AUTOHINT_METRICS),
         ("autohint_cmap", d::AUTOHINT_CMAP),
+        ("notoserif_autohint_shaping", d::NOTOSERIF_AUTOHINT_SHAPING),
+        ("notoseriftc_autohint", d::NOTOSERIFTC_AUTOHINT_METRICS),
         ("ahem", d::AHEM),
         ("avar2checker", d::AVAR2_CHECKER),
         ("noto_serif_display_cff", d::NOTO_SERIF_DISPLAY_TRIMMED),
@@ -1027,6 +1031,74 @@ fn main() {
                 }
             }
         }
+    }
+    // ---------------- T6: cold start under contention. State that an instance initialises lazily on first use
+    // (the autohinter's per-style metrics cache behind an RwLock, shared by clones through an Arc) is only
+    // vulnerable while it is still empty, so every round builds a BRAND NEW instance, releases N threads from a
+    // Barrier and lets their FIRST draws overlap; half of the threads walk the glyphs in the same order (same
+    // style at the same time), the others in rotated orders; odd rounds draw through per-thread CLONES of the
+    // fresh instance. Every result is compared with a single-threaded reference drawn through another fresh
+    // instance. All fonts x {Auto, AutoFallback} plus the whole reuse pool.
+    {
+        let mut cfgs: Vec<Cfg> = pool.clone();
+        for (fi, f) in fonts.iter().enumerate() {
+            for engine in [1u8, 2] {
+                cfgs.push(Cfg { font: fi, size: Some(16.0), coords: vec![], engine, target: tgts[0] });
+            }
+            if f.axes > 0 {
+                cfgs.push(Cfg { font: fi, size: Some(13.0), coords: rand_coords(&mut rng, f.axes), engine: 1, target: tgts[2] });
+            }
+        }
+        let mut seen = std::collections::BTreeSet::new();
+        cfgs.retain(|c| seen.insert(c.key(&fonts)));
+        let n_threads = 16usize;
+        let rounds = if thorough { 8 } else { 4 };
+        for c in &cfgs {
+            let f = &fonts[c.font];
+            let gids: Vec<u32> = f.gids.clone();
+            if gids.is_empty() {
+                continue;
+            }
+            let Ok(ref_inst) = new_instance(&fonts, c) else { continue };
+            let reference: Vec<Outcome> = draw_sample(f, &ref_inst, &gids);
+            for round in 0..rounds {
+                let Ok(shared) = new_instance(&fonts, c) else { break };
+                let clones: Vec<HintingInstance> = if round % 2 == 1 { (0..n_threads).map(|_| shared.clone()).collect() } else { vec![] };
+                let barrier = std::sync::Barrier::new(n_threads);
+                let results: Vec<Vec<(usize, Outcome)>> = std::thread::scope(|s| {
+                    let hs: Vec<_> = (0..n_threads)
+                        .map(|t| {
+                            let inst: &HintingInstance = if clones.is_empty() { &shared } else { &clones[t] };
+                            let (f, gids, barrier) = (&f, &gids, &barrier);
+                            s.spawn(move || {
+                                let rot = if t % 2 == 0 { 0 } else { (t + round) % gids.len() };
+                                barrier.wait();
+                                (0..gids.len())
+                                    .map(|i| {
+                                        let k = (i + rot) % gids.len();
+                                        (k, draw_hinted(&f.outlines.get(GlyphId::new(gids[k])).unwrap(), inst, false, None))
+                                    })
+                                    .collect()
+                            })
+                        })
+                        .collect();
+                    hs.into_iter().map(|h| h.join().unwrap_or_default()).collect()
+                });
+                for (t, r) in results.iter().enumerate() {
+                    if r.len() != gids.len() {
+                        st.oracle_failure(json!({"key": format!("cold-threads|{}|died", c.key(&fonts)), "what": "a drawing thread died", "thread": t}));
+                    }
+                    for (k, o) in r {
+                        st.evaluations += 1;
+                        st.count(if clones.is_empty() { "t6_cold_threaded_draws_shared" } else { "t6_cold_threaded_draws_clones" });
+                        if o != &reference[*k] {
+                            st.oracle_failure(json!({"key": format!("cold-threads|{}|g{}", c.key(&fonts), gids[*k]), "what": "first concurrent draws through a fresh shared instance differ from the single-threaded result", "round": round, "thread": t, "through_clone": !clones.is_empty(), "diff": first_diff(&reference[*k], o)}));
+                        }
+                    }
+                }
+            }
+        }
+        st.v.insert("t6_configs".into(), cfgs.len().into());
     }
     // T5b: unhinted, shared OutlineGlyphCollection
     for f in fonts.iter() {
